@@ -97,6 +97,13 @@ def fnlessChain (ignore : Bool) : List Op → List (Ev Val) → List (Ev Val)
   | [], evs => cutTerminal ignore evs
   | op :: ops, evs => fnlessChain ignore ops (fnlessEvents ignore op evs)
 
+/-- a chain of operators without functions over ANY source: every operator first leaves out the skippable errors
+passed on to it (`skipNT`: failing reads of the data source, skippable routing errors of the previous operator), as
+`Ref.chainEventsS` does -/
+def fnlessChainS (ignore : Bool) : List Op → List (Ev Val) → List (Ev Val)
+  | [], evs => cutTerminal ignore evs
+  | op :: ops, evs => fnlessChainS ignore ops (fnlessEvents ignore op (skipNT ignore evs))
+
 end Ref
 
 /-- NOT the code: the "simplification" `_identity_fn(*x) = x[0] if len(x) == 1 else x` (seeded regression
